@@ -6,6 +6,7 @@ import ast
 from typing import Dict, List, Optional, Set
 
 from fsa.effects import direct_writes
+from fsa.flow import PARAM
 from fsa.match import dict_slot, dotted, is_call, is_const, is_self_call, is_super_call, is_underscore_key, kwarg, method_call, has_star_args
 from fsa.source import Unsupported, c3_mro, iter_own_nodes, resolve_method, stmt_key, text
 from rules.common import Fn
@@ -93,6 +94,17 @@ def r2_constructor(R) -> None:
     n = calls[0]
     c = [x for x in ast.walk(n.ast) if is_super_call(x, '__init__')][0]
     stars = [k.value for k in c.keywords if k.arg is None]
+    if len(stars) == 1 and isinstance(stars[0], ast.Name):
+        # the re-keyed mapping built first and passed on by name (the parameter itself rebound included)
+        vals = f.lf.values_reaching(n.id, stars[0].id)
+        if len(vals) == 1 and isinstance(vals[0][1], ast.DictComp) and stars[0].id not in f.mutated_in_place():
+            dc0 = vals[0][1]
+            src_ = dc0.generators[0].iter
+            # `kwargs = {... for k, v in kwargs.items()}`: the iterated `kwargs` is the parameter as passed in
+            if isinstance(src_, ast.Call) and isinstance(src_.func, ast.Attribute) and isinstance(src_.func.value, ast.Name):
+                inner = f.lf.values_reaching(vals[0][0], src_.func.value.id)
+                if all(s_ == PARAM for (s_, _v) in inner):
+                    stars = [dc0]
     ok = has_star_args(c, 'args') and len(stars) == 1 and isinstance(stars[0], ast.DictComp)
     if ok:
         dc = stars[0]
